@@ -15,6 +15,7 @@ import (
 	"time"
 
 	"github.com/anyproto/any-sync/commonspace/object/accountdata"
+	"github.com/anyproto/any-sync/net/peer"
 	"github.com/anyproto/any-sync/net/secureservice"
 	"github.com/anyproto/any-sync/net/secureservice/handshake"
 	"github.com/anyproto/any-sync/net/secureservice/handshake/handshakeproto"
@@ -226,6 +227,31 @@ func (s sideOut) verdict() string {
 	}
 }
 
+// viaService runs one side through a real secure service (HandshakeOutbound / HandshakeInbound) and reads what the
+// service attached to the connection context back into a handshake.Result.
+func viaService(sc sideCfg, outgoing bool, ctx context.Context, conn io.ReadWriteCloser, remotePeer string) (res handshake.Result, err error) {
+	svc, err := secureservice.VerifService(sc.Version, sc.Accept, sc.CV, accts[sc.Acct].keys, sc.Verify)
+	if err != nil {
+		panic(fmt.Sprintf("c14: secure service Init with version %d and configured list %v: %v", sc.Version, sc.Accept, err))
+	}
+	var cctx context.Context
+	if outgoing {
+		if sc.Verify {
+			ctx = secureservice.CtxAllowAccountCheck(ctx)
+		}
+		cctx, err = svc.HandshakeOutbound(ctx, conn, remotePeer)
+	} else {
+		cctx, err = svc.HandshakeInbound(ctx, conn, remotePeer)
+	}
+	if err != nil || cctx == nil {
+		return res, err
+	}
+	res.Identity, _ = peer.CtxIdentity(cctx)
+	res.ProtoVersion, _ = peer.CtxProtoVersion(cctx)
+	res.ClientVersion = peer.CtxPeerClientVersion(cctx)
+	return res, nil
+}
+
 func mkSideOut(res handshake.Result, err error, start time.Time) sideOut {
 	o := sideOut{Returned: true, OK: err == nil, At: time.Since(start)}
 	if err != nil {
@@ -327,7 +353,13 @@ func (w *world) runPair(ps pairSpec, rc any) *pairResult {
 		start := time.Now()
 		done := make(chan int, 2)
 		go func() {
-			res, err := handshake.OutgoingHandshake(ctxO, p.ends[0], accts[ps.In.Acct].peerId, ccO)
+			var res handshake.Result
+			var err error
+			if ps.Out.ViaService {
+				res, err = viaService(ps.Out, true, ctxO, p.ends[0], accts[ps.In.Acct].peerId)
+			} else {
+				res, err = handshake.OutgoingHandshake(ctxO, p.ends[0], accts[ps.In.Acct].peerId, ccO)
+			}
 			if r.Hung {
 				r.Late++ // returned only after the harness tore the conn down: stays "not returned" for the oracle
 			} else {
@@ -336,7 +368,13 @@ func (w *world) runPair(ps pairSpec, rc any) *pairResult {
 			done <- 0
 		}()
 		go func() {
-			res, err := handshake.IncomingHandshake(ctxI, p.ends[1], accts[ps.Out.Acct].peerId, ccI)
+			var res handshake.Result
+			var err error
+			if ps.In.ViaService {
+				res, err = viaService(ps.In, false, ctxI, p.ends[1], accts[ps.Out.Acct].peerId)
+			} else {
+				res, err = handshake.IncomingHandshake(ctxI, p.ends[1], accts[ps.Out.Acct].peerId, ccI)
+			}
 			if r.Hung {
 				r.Late++
 			} else {
